@@ -861,6 +861,8 @@ func writeEvidence(agg *aggregate, m *meta, start time.Time, known map[string]in
 		"real_components":       m.Real,
 		"stubbed_components":    m.Stubbed,
 		"not_reached":           m.NotReached,
+		"images_evaluated":      ev.counters["crash_images"] + ev.counters["damage_images"],
+		"images_note":           "fault_enumeration checks: number of crash / power-loss / damaged directory images on which the real Open ran (every journal position of every run is one process-crash image)",
 		"exhaustive":            false,
 		"base_seed":             baseSeed,
 		"run_seed_derivation":   "runSeed = mix(VERIF_SEED, property, runIndex); runIndex in [0, evaluations)",
